@@ -143,6 +143,9 @@ class Decl:
                     impl_id = '%s.%s' % (cname, fname)
                     attrs[fname] = O.dbusMethod(n, m)(make_impl(fname, impl_id, nargs, wants))
                     self.impl[(n, m)] = (impl_id, wants)
+            if base is O.DBusObject and isinstance(case_id, int) and case_id % 2:
+                # an exported object may also be a container, and an empty one is falsy: dispatch must not care
+                attrs['__len__'] = lambda self_: 0
             return type(cname, (base,), attrs)
 
         split_bindings = bool(derived_ifs) and r.random() < 0.5
